@@ -49,11 +49,13 @@ type Prog struct {
 // Call the function with the arguments provided.
 func (f *Prog) Call(s *slip.Scope, args slip.List, depth int) slip.Object {
 	slip.CheckArgCount(s, depth, f, args, 1, -1)
-	ns := s.NewScope()
+	bs := s.NewScope() // the nil block also surrounds the init forms
+	bs.Block = true
+	ns := bs.NewScope()
 	ns.Block = true
 	ns.TagBody = true
 	d2 := depth + 1
-	if exit := processBinding(s, ns, args[0], d2); exit != nil {
+	if exit := processBinding(bs, ns, args[0], d2); exit != nil {
 		return loopExit(exit)
 	}
 	for i := 1; i < len(args); i++ {
